@@ -1,0 +1,92 @@
+//go:build verif
+
+package remote
+
+// Contracts for gocv (see /verif/DESIGN.md). Comment-only file.
+
+//@ package remote
+//@ import io "io"
+//@ import http "net/http"
+//@ import url "net/url"
+//@ import json "encoding/json"
+//@ import strings "strings"
+//@ import ocispec "github.com/opencontainers/image-spec/specs-go/v1"
+//@ import errdef "oras.land/oras-go/v2/errdef"
+//@
+//@ pure effLimit(n int64) int64 = n > 0 ? n : defaultMaxMetadataBytes
+//@
+//@ func limitSize
+//@   ensures [C15:exact] (result != nil) == (desc.Size > effLimit(n))
+//@   ensures [C15:error-kind] result != nil ==> errors.Is(result, errdef.ErrSizeExceedsLimit)
+//@   modifies alloc, elems[any]
+//@
+//@ func limitReader
+//@   ensures [C15:limit] result != nil && limitOf(result) == effLimit(n) && limitedFrom(result) == r
+//@   modifies alloc
+//@
+//@ func parseLink
+//@   requires [wf] resp != nil && resp.Request != nil && resp.Request.URL != nil
+//@   let link = headerGet(resp.Header, "Link")
+//@   call (*URL).Parse requires [C15:target-between-brackets] strat(link, 0) == 60 && (exists i int :: 1 <= i && i < strlen(link) && strat(link, i) == 62 && (forall j int :: 0 <= j && j < i ==> strat(link, j) != 62) && args.ref == strsub(link, 1, i))
+//@   ensures [C15:no-link] link == "" ==> result1 == errNoLink
+//@   ensures [C15:link-error-is-not-no-link] link != "" ==> result1 != errNoLink
+//@
+//@ ghost frSrc(k int) int
+//@ func filterReferrers
+//@   loop 0 invariant [bounds] artifactType != "" && 0 <= j && j <= $i && $i <= len(refs)
+//@   loop 0 invariant [unread] forall m int :: $i <= m && m < len(refs) ==> refs[m] == old(refs[m])
+//@   loop 0 invariant [C14,C15:kept] forall k int :: 0 <= k && k < j ==> 0 <= frSrc(k) && frSrc(k) < $i && refs[k] == old(refs[now(frSrc(k))]) && refs[k].ArtifactType == artifactType
+//@   loop 0 invariant [C14,C15:order] forall k, l int :: 0 <= k && k < l && l < j ==> frSrc(k) < frSrc(l)
+//@   loop 0 invariant [C14,C15:complete] forall m int :: 0 <= m && m < $i && old(refs[m]).ArtifactType == artifactType ==> (exists k int :: 0 <= k && k < j && frSrc(k) == m)
+//@   loop 0 backedge set frSrc(j) = next.j != j ? $i : frSrc(j)
+//@   ensures [C14,C15:identity-when-unfiltered] artifactType == "" ==> result == refs && (forall m int :: 0 <= m && m < len(refs) ==> refs[m] == old(refs[m]))
+//@   ensures [C14,C15:kept] artifactType != "" ==> (forall k int :: 0 <= k && k < len(result) ==> 0 <= frSrc(k) && frSrc(k) < len(refs) && result[k] == old(refs[now(frSrc(k))]) && result[k].ArtifactType == artifactType)
+//@   ensures [C14,C15:order] artifactType != "" ==> (forall k, l int :: 0 <= k && k < l && l < len(result) ==> frSrc(k) < frSrc(l))
+//@   ensures [C14,C15:complete] artifactType != "" ==> (forall m int :: 0 <= m && m < len(refs) && old(refs[m]).ArtifactType == artifactType ==> (exists k int :: 0 <= k && k < len(result) && frSrc(k) == m))
+//@   modifies elems[ocispec.Descriptor], ghost.frSrc
+//@
+//@ func isReferrersFilterApplied
+//@   loop 0 invariant [not-yet] forall i int :: 0 <= i && i < $i ==> splitPart(applied, ",", i) != requested
+//@   loop 0 invariant [parts] len(filters) == splitCount(applied, ",") && (forall i int :: 0 <= i && i < len(filters) ==> filters[i] == splitPart(applied, ",", i))
+//@   ensures [C15:exact] result == (applied != "" && requested != "" && (exists i int :: 0 <= i && i < splitCount(applied, ",") && splitPart(applied, ",", i) == requested))
+//@
+//@ func (*Repository).do
+//@   trusted
+//@   ensures result1 == nil ==> result0 != nil && alive(result0) && result0.Request != nil && result0.Request.URL != nil && result0.Body != nil
+//@   modifies alloc
+//@
+//@ ghost local tagsFnCalls int
+//@ ghost local tagsFnErr error
+//@ ghost local tagsQN bool
+//@ ghost local tagsQLast bool
+//@ func (*Repository).tags
+//@   requires [wf] fn != nil
+//@   entry set tagsFnCalls = 0
+//@   entry set tagsQN = false
+//@   entry set tagsQLast = false
+//@   call Set set tagsQN = tagsQN || args.key == "n"
+//@   call Set set tagsQLast = tagsQLast || args.key == "last"
+//@   call do requires [C15:query-parameters] tagsQN == (r.TagListPageSize > 0) && tagsQLast == (last != "")
+//@   call NewDecoder requires [C15:limited-before-decode] limitOf(args.r) == effLimit(r.MaxMetadataBytes) && limitedFrom(args.r) == resp.Body
+//@   call fn requires [C15:callback-gets-decoded-page] args.arg0 == page.Tags
+//@   call fn set tagsFnCalls = tagsFnCalls + 1
+//@   call fn set tagsFnErr = result
+//@   call fn assume [callback-does-not-touch-response] resp.Request == old(resp.Request) && resp.Request.URL == old(resp.Request.URL) && resp.Body == old(resp.Body)
+//@   ensures [C15:one-callback] result1 == nil ==> tagsFnCalls == 1
+//@   ensures [C15:at-most-one-callback] tagsFnCalls <= 1
+//@   ensures [C15:callback-error-identity] tagsFnCalls == 1 && tagsFnErr != nil ==> result1 == tagsFnErr
+//@
+//@ ghost local tagPages int
+//@ ghost local tagLastURL string
+//@ ghost local tagLastErr error
+//@ func (*Repository).Tags
+//@   requires [wf] fn != nil && ctx != nil
+//@   entry set tagPages = 0
+//@   call tags requires [C15:last-only-on-first-page] (tagPages == 0 ==> args.last == last0) && (tagPages > 0 ==> args.last == "")
+//@   call tags requires [C15:follows-link] tagPages > 0 ==> args.url == tagLastURL
+//@   call tags set tagPages = tagPages + 1
+//@   call tags set tagLastURL = result0
+//@   call tags set tagLastErr = result1
+//@   loop 0 invariant [C15:chain] tagPages >= 0 && (tagPages == 0 ==> last == last0 && err == nil) && (tagPages > 0 ==> last == "" && url == tagLastURL && err == tagLastErr)
+//@   ensures [C15:nil-iff-nolink] tagPages > 0 && ((result == nil) == (tagLastErr == errNoLink))
+//@   ensures [C15:error-unchanged] result != nil ==> result == tagLastErr
